@@ -262,7 +262,9 @@ def bounds(prog: Program, rep: Report):
                         f"(or the offset is paired with the other axis)" if lo_ok else f"the lower bound {ast.unparse(lo)} of "
                         f"'{ov}' can be negative"), line=call.lineno, clause="C14.1")
             per_fn[fi.qualname] = n_ob - n_before
-    rep.floor("offset draws checked against their extent and image dimension", n_ob, 10)
+    # 10 on the pinned tree; a site whose draws move into a helper that cannot be inlined (a return inside a retry loop) is
+    # reported 'undecided' above, it does not make the run fail - the floor guards against the rule matching (almost) nothing
+    rep.floor("offset draws checked against their extent and image dimension", n_ob, 6)
 
 
 # ----------------------------------------------------------------------------------------------------------------------
